@@ -14,6 +14,7 @@ import os
 import shutil
 import subprocess
 import tempfile
+import time
 
 import numpy as np
 
@@ -31,7 +32,7 @@ ASSUMPTIONS = ["mtime is advanced by whole seconds through os.utime (logical clo
 REQUIRED_MONITORS = ["evaluates_current_sources", "source_to_library_injective", "cache_listing_is_image"]
 REQUIRED_BUCKETS = {"quick": ["op:edit_py_const", "op:edit_py_default", "op:edit_inc", "op:edit_template", "op:dtype",
                               "op:revert", "eval:same_process", "eval:fresh_process", "revert_then_same_process",
-                              "default_only_edit_then_same_process"]}
+                              "default_only_edit_then_same_process", "clock:past", "clock:future", "clock:near-now"]}
 REQUIRED_BUCKETS["thorough"] = REQUIRED_BUCKETS["quick"]
 HERE = os.path.dirname(os.path.abspath(__file__))
 FSIZE = {"single": 4.0, "double": 8.0, "quad": 16.0}
@@ -55,7 +56,7 @@ def inc_text(V):
 
 
 class World:
-    def __init__(self, root):
+    def __init__(self, root, epoch="past"):
         self.root = root
         self.pkg = os.path.join(root, "pkg")
         subprocess.run(["rsync", "-a", "--exclude", "__pycache__", os.path.join(core.REPO, "sasmodels"), self.pkg + "/"],
@@ -69,7 +70,10 @@ class World:
         # one logical clock for all files: wall-clock time is global, so a later edit of any file carries
         # a later mtime than every earlier edit (per-file clocks would manufacture histories that a real
         # file system cannot produce without copying old time stamps)
-        self.now = 1_700_000_000
+        # The clock starts in the past, just before the system's "now" (so that later edits cross it), or ahead
+        # of it (files stamped by a machine whose clock runs ahead, archive time stamps): the statement is about
+        # content and time-stamp order, not about the relation to this machine's wall clock.
+        self.now = {"past": 1_700_000_000, "near-now": int(time.time()) - 7, "future": int(time.time()) + 7200}[epoch]
         self.state = {"K": 1, "D": 1, "V": 1, "T": 1}
         self.history = {"py": [], "inc": [], "tpl": []}
         self.write("py")
@@ -163,7 +167,9 @@ def gen_history(rng, h):
 def run_case(case, rec):
     rng = core.rng_for(case["seed"], PROP, case["h"])
     root = tempfile.mkdtemp(prefix="c17-", dir=os.environ.get("RTM_SCRATCH"))
-    w = World(root)
+    epoch = ["past", "future", "past", "near-now"][case["h"] % 4]
+    rec.bucket("clock:" + epoch)
+    w = World(root, epoch)
     dtype = "double"
     ops = gen_history(rng, case["h"])
     keymap = {}
